@@ -49,8 +49,9 @@ def instances(tier, seed):
     if tier == "quick":
         for es in ([(0, 1), (1, 2), (2, 3), (3, 4), (0, 4)], [(0, 1), (0, 2), (1, 2), (3, 4)],
                    [(0, 1), (0, 2), (0, 3), (1, 2), (1, 3), (2, 3), (3, 4)]):
-            lab = enumr.relabelings(5, seed, kinds=("sparse",))[0]
-            yield {"kind": "edges", "n": 5, "edges": [(lab[a], lab[b]) for a, b in es], "verts": lab}
+            for kind in ("sparse", "large"):
+                lab = enumr.relabelings(5, seed, kinds=(kind,))[0]
+                yield {"kind": "edges", "n": 5, "edges": [(lab[a], lab[b]) for a, b in es], "verts": lab}
 
 
 def largest_fraction(verts, edges):
@@ -63,7 +64,7 @@ def check_graph(res, verts, edges, phi, desc, star=False):
     from gcmpy.tools.bond_percolate import bond_percolate
     g = nx.Graph()
     g.add_nodes_from(verts)
-    g.add_edges_from(edges)
+    g.add_edges_from(enumr.fresh_edges(edges))
     before = (sorted(g.nodes()), sorted(map(sorted, g.edges())))
     edge_order = [tuple(e) for e in g.edges()]
     N = len(verts)
